@@ -199,6 +199,7 @@ type verifCase struct {
 	Atomic   bool          `json:"atomic"`
 	StepMS   int           `json:"step_ms"`
 	Cap      int           `json:"cap"`
+	Procs1   bool          `json:"procs1"` // run the case with GOMAXPROCS(1): every goroutine shares one P (and its sync.Pool slot)
 	Interval int           `json:"interval"`
 	Writers  []verifWriter `json:"writers"`
 	Sched    []int         `json:"sched"`
@@ -249,6 +250,7 @@ type verifResult struct {
 	DropCount  int64                     `json:"dropped_count"`
 	WalSeq     uint64                    `json:"walseq"`
 	NextSeq    uint64                    `json:"nextseq"`
+	Assigned   []uint64                  `json:"assigned"` // per writer: the sequence Sender.Replicate stamped on its entry (0 = none)
 	Wire       []verifFrameDesc          `json:"wire"`
 	Skipped    []int                     `json:"skipped_ops"`
 	OtherTags  map[string]verifEntryDesc `json:"other_tags"`
@@ -614,6 +616,10 @@ func runVerifCase(t *testing.T, c *verifCase, dir string) (res verifResult) {
 	ctx, cancel := context.WithCancel(context.Background())
 	defer cancel()
 
+	if c.Procs1 {
+		old := runtime.GOMAXPROCS(1)
+		defer runtime.GOMAXPROCS(old)
+	}
 	// ---- phase 1 ---------------------------------------------------------------------
 	ctl := newVerifCtl(len(c.Writers), c.Atomic)
 	verifCur.Store(ctl)
@@ -669,6 +675,16 @@ func runVerifCase(t *testing.T, c *verifCase, dir string) (res verifResult) {
 		}
 	}()
 
+	// which sequence did the implementation give to which writer (read back from the entry the
+	// writer's own goroutine handed to Sender.Replicate)
+	assigned := make([]uint64, len(c.Writers))
+	noteAssigned := func(seq uint64) {
+		ctl.mu.Lock()
+		if i, ok := ctl.gids[verifGID()]; ok {
+			assigned[i] = seq
+		}
+		ctl.mu.Unlock()
+	}
 	var w *wal.Writer
 	for _, wr := range c.Writers {
 		if wr.Kind != "direct" {
@@ -683,11 +699,13 @@ func runVerifCase(t *testing.T, c *verifCase, dir string) (res verifResult) {
 			}
 			// exactly the wiring of coordinator.Start (checked textually by tools/props/C24.py)
 			w.SetReplicationHook(func(entry *wal.ReplicationEntry) {
-				sender.Replicate(&ReplicateEntry{
+				e := &ReplicateEntry{
 					Sequence:    entry.Sequence,
 					TimestampUS: entry.TimestampUS,
 					Payload:     entry.Payload,
-				})
+				}
+				sender.Replicate(e)
+				noteAssigned(e.Sequence)
 			})
 			break
 		}
@@ -706,11 +724,20 @@ func runVerifCase(t *testing.T, c *verifCase, dir string) (res verifResult) {
 			close(ready)
 			switch wr.Kind {
 			case "direct":
-				sender.Replicate(&ReplicateEntry{TimestampUS: 1, Payload: payload})
+				e := &ReplicateEntry{TimestampUS: 1, Payload: payload}
+				sender.Replicate(e)
+				noteAssigned(e.Sequence)
 			case "wal":
+				// AppendRaw is documented zero-copy: its callers (wal.Append, Receiver.applyEntry) hand over
+				// a slice nobody reuses, so the harness does not scribble here
 				_ = w.AppendRaw(payload)
 			case "walmeta":
+				// value semantics: the ingest path passes record.RawPayload, which the caller may reuse as
+				// soon as the call returns; the harness owns the buffer and overwrites it afterwards
 				_ = w.AppendRawWithMeta(wr.DB, payload)
+				for k := range payload {
+					payload[k] = 0xEE
+				}
 			}
 			ctl.events <- verifEvent{i, "done"}
 		}()
@@ -791,6 +818,9 @@ func runVerifCase(t *testing.T, c *verifCase, dir string) (res verifResult) {
 		}
 	}
 	res.NextSeq = sender.CurrentSequence()
+	ctl.mu.Lock()
+	res.Assigned = append([]uint64(nil), assigned...)
+	ctl.mu.Unlock()
 	res.DropCount = sender.totalEntriesDropped.Load()
 	if w != nil {
 		res.WalSeq = w.CurrentSequence()
